@@ -219,3 +219,37 @@ Example C02_browse_redirect_partial_nonvacuous :
   browse fixture_fs gen_c02_hide gen_default_index_pages [{| b_scope := [SLASH]; b_types := [] |}]
          0 (bs "/x/..//dir/sub") [] [] = Redirect 301 (bs "/dir/sub/").
 Proof. vm_compute. reflexivity. Qed.
+
+(* ---- the whole site ---------------------------------------------------------------------- *)
+(* internal in front of browse in front of the static file server ([handle] is the function the
+   harness compares with the real sites): every content-carrying answer and every redirect of
+   every site, for every request. *)
+Theorem C02_site_sound :
+  forall (s : site) (r : request),
+  match handle s r with
+  | Serve n enc =>
+      is_get_head (q_meth r) = true /\ In n (s_fs s) /\
+      served_from (s_pages s) (q_path r) (q_ae r) enc (n_path n) /\
+      (enc = None -> n_dir n = false /\ is_hidden (s_fs s) (s_hide s) n = false) /\
+      (no_hidden_sibling (s_fs s) (s_hide s) -> is_hidden (s_fs s) (s_hide s) n = false)
+  | Listing kids =>
+      forall k, In k kids -> In k (s_fs s) /\ is_child (jail (q_path r)) (n_path k) = true /\
+                             is_hidden (s_fs s) (s_hide s) k = false
+  | Archive ms =>
+      forall k, In k ms -> In k (s_fs s) /\ is_desc (jail (q_path r)) (n_path k) = true /\
+                           has_prefix (n_path k) (jail (q_path r)) = true
+  | Redirect code loc =>
+      rooted (q_path r) -> has_prefix (q_path r) [SLASH; SLASH] = false ->
+      one_slash loc = true /\ same_origin loc = true
+  | Status _ => True
+  end.
+Proof. exact site_sound. Qed.
+Print Assumptions C02_site_sound.
+
+Example C02_site_sound_nonvacuous :
+  map (fun p => match handle (mksite (bs "/srv/www") (bs "/srv/www/Casketfile") [SLASH] gen_archive_types) (mkreq 0 (bs p) (bs "br") []) with
+                | Serve n _ => n_id n | Listing k => 1000 + N.of_nat (length k) | Redirect c _ => c
+                | Status c => c | Archive _ => 2000 end)
+      ["/a.txt"; "/dir/"; "/dir"; "/secret.txt"; "/Casketfile/."]
+  = [15; 1005; 301; 404; 404].
+Proof. vm_compute. reflexivity. Qed.
